@@ -750,3 +750,112 @@ Proof.
   - apply zget_none_range in G. pw_finish.
     all: try (rewrite zget_beyond by zl; reflexivity).
 Qed.
+
+Lemma zskipn_all {A} (l : list A) n : zlen l <= n -> zskipn n l = [].
+Proof. intros H; unfold zskipn; apply skipn_all2; unfold zlen in H; lia. Qed.
+
+Lemma zfirstn_all {A} (l : list A) n : zlen l <= n -> zfirstn n l = l.
+Proof. intros H; unfold zfirstn; apply firstn_all2; unfold zlen in H; lia. Qed.
+
+Lemma zfirstn_zskipn {A} (l : list A) n : zfirstn n l ++ zskipn n l = l.
+Proof. unfold zfirstn, zskipn; apply firstn_skipn. Qed.
+
+Lemma zlen_abs_line l : zlen (abs_line l) = zlen l.
+Proof. unfold abs_line; apply zlen_map. Qed.
+
+Lemma put_same {A} (d : A) (g : list A) r : 0 <= r < zlen g -> put r (at_ d r g) g = g.
+Proof.
+  intros Hr. apply list_ext_all; intros i. unfold put. autorewrite with zg.
+  destruct (Z_lt_dec i 0); [rewrite !zget_neg by lia; pw_finish|].
+  pw_finish.
+  - assert (i = r) by lia; subst. unfold at_, zget. destruct (r <? 0) eqn:E; [lia|].
+    symmetry. apply nth_error_nth'. unfold zlen in Hr; lia.
+Qed.
+
+Lemma set_cur_line_same w h t : Inv w h t -> set_cur_line (abs t) (cur_line (abs t)) = abs t.
+Proof.
+  intros HI. unfold set_cur_line, cur_line, set_grid.
+  rewrite put_same.
+  - unfold abs; reflexivity.
+  - unfold abs; cbn [v_row v_grid]. unfold abs_grid. rewrite zlen_map.
+    pose proof (Inv_WF w h t HI) as HW. destruct (WFs_active _ _ _ _ HW) as [Hlen _]. destruct HW; zl.
+Qed.
+
+Section RowOps.
+Variables (w h : Z) (t : term).
+Hypothesis HI : Inv w h t.
+Hypothesis Hlast : t_last t = false.
+Let HW := Inv_WF w h t HI.
+
+(* erase_in_row on the cursor's line, in the reference terminal's terms *)
+Lemma erase_in_row_sim lo hi :
+  0 <= lo -> lo <= hi -> hi <= w ->
+  exists t', erase_in_row (set_last t false) (t_row t) lo hi = TOk t' /\ Inv w h t' /\
+    abs t' = set_cur_line (abs t)
+               (zfirstn lo (cur_line (abs t)) ++ blanks (abs t) (hi - lo) ++ zskipn hi (cur_line (abs t))).
+Proof.
+  intros H1 H2 H3.
+  pose proof (Inv_set_last w h t false HI) as HI1.
+  destruct (cur_row w h t HI) as [line [Hg [Hl HF]]].
+  rewrite (cur_line_abs w h t line HI Hg).
+  unfold erase_in_row, range_in_row. destruct (lo <? hi) eqn:E.
+  - erewrite (on_row_eval 0 w h (set_last t false)); [| apply HI1 | destruct HW; cbn; lia | exact Hg |].
+    2:{ unfold upd_range. rewrite E. destruct ((lo <? 0) || (zlen line <? hi)) eqn:E2; [lia|]. reflexivity. }
+    eexists; split; [reflexivity|]. split.
+    + apply Inv_set_active; auto. split.
+      * rewrite zlen_upd_nat. apply (WFs_active _ _ _ _ HW).
+      * apply upd_nat_Forall; [apply (WFs_active _ _ _ _ HW)|].
+        split; [rewrite map_range_length; lia|]. apply map_range_Forall; auto.
+        intros c _; unfold cell_ok; simpl; lia.
+    + change (t_row t) with (t_row (set_last t false)) at 1.
+      rewrite (abs_row_op w h (set_last t false) line); auto.
+      * rewrite (abs_set_last_false t Hlast). f_equal. now apply abs_line_erase; lia.
+      * split; [rewrite map_range_length; lia|]. apply map_range_Forall; auto.
+        intros c _; unfold cell_ok; simpl; lia.
+  - assert (lo = hi) by lia; subst hi. exists (set_last t false). split; [reflexivity|]. split; auto.
+    rewrite (abs_set_last_false t Hlast). replace (lo - lo) with 0 by lia.
+    unfold blanks; cbn [zrepeat Z.to_nat repeat app]. rewrite zfirstn_zskipn.
+    rewrite <- (cur_line_abs w h t line HI Hg). symmetry. now apply (set_cur_line_same w h).
+Qed.
+
+Lemma sim_el x : pv_ok x ->
+  exists t', el t (clamp_ps x) = TOk t' /\ Inv w h t' /\ abs t' = erase_line (abs t) x.
+Proof.
+  intros Hx. unfold el; cbv zeta. change (width (set_last t false)) with (width t). rewrite (Inv_width w h t HI).
+  change (t_col (set_last t false)) with (t_col t).
+  destruct (cur_row w h t HI) as [line [Hg [Hl HF]]].
+  assert (HL : zlen (cur_line (abs t)) = w) by (rewrite (cur_line_abs w h t line HI Hg), zlen_abs_line; exact Hl).
+  unfold erase_line. rewrite (abs_cols w h t HI). change (v_col (abs t)) with (t_col t).
+  split_pv x Hx.
+  - destruct (x =? 0) eqn:E0; [|destruct (x =? 1) eqn:E1; [|destruct (x =? 2) eqn:E2]].
+    + destruct (erase_in_row_sim (t_col t) w) as [t' [E [I A]]]; [destruct HW; lia | destruct HW; lia | lia|].
+      exists t'; split; [exact E|]; split; [exact I|]. rewrite A. f_equal.
+      rewrite (zskipn_all (cur_line (abs t)) w) by lia. now rewrite app_nil_r.
+    + destruct (erase_in_row_sim 0 (t_col t + 1)) as [t' [E [I A]]]; [lia | destruct HW; lia | destruct HW; lia|].
+      exists t'; split; [exact E|]; split; [exact I|]. rewrite A. f_equal. replace (t_col t + 1 - 0) with (t_col t + 1) by lia. reflexivity.
+    + destruct (erase_in_row_sim 0 w) as [t' [E [I A]]]; [lia | destruct HI; lia | lia|].
+      exists t'; split; [exact E|]; split; [exact I|]. rewrite A. f_equal.
+      rewrite (zskipn_all (cur_line (abs t)) w) by lia. rewrite app_nil_r. replace (w - 0) with w by lia.
+      unfold blank_line. rewrite (abs_cols w h t HI). reflexivity.
+    + exists (set_last t false). split; [reflexivity|]. split; [now apply Inv_set_last | now apply abs_set_last_false].
+  - assert (x =? 0 = false) as -> by lia. assert (x =? 1 = false) as -> by lia. assert (x =? 2 = false) as -> by lia.
+    cbn. exists (set_last t false). split; [reflexivity|]. split; [now apply Inv_set_last | now apply abs_set_last_false].
+Qed.
+
+Lemma sim_ech x : pv_ok x ->
+  exists t', ech t (clamp_ps x) = TOk t' /\ Inv w h t' /\ abs t' = erase_chars (abs t) (dflt x).
+Proof.
+  intros Hx. unfold ech; cbv zeta. change (width (set_last t false)) with (width t). rewrite (Inv_width w h t HI).
+  change (t_col (set_last t false)) with (t_col t). change (t_row (set_last t false)) with (t_row t).
+  unfold erase_chars. rewrite (abs_cols w h t HI). change (v_col (abs t)) with (t_col t).
+  assert (Hc : (t_col t <=? w) = true) by (destruct HW; lia). rewrite Hc.
+  set (k := Z.min (dflt x) (w - t_col t)).
+  assert (Hk : Z.min (t_col t + dflt1 (clamp_ps x)) w = t_col t + k).
+  { unfold k, dflt1, dflt. destruct HI as [[] ? ?]. split_pv x Hx; repeat case_if; lia. }
+  rewrite Hk.
+  assert (Hk0 : 0 <= k) by (pose proof Hx as Hx'; unfold pv_ok in Hx'; unfold k, dflt; destruct HW; case_if; lia).
+  destruct (erase_in_row_sim (t_col t) (t_col t + k)) as [t' [E [I A]]]; [destruct HW; lia | lia | unfold k; lia|].
+  exists t'; split; [exact E|]; split; [exact I|]. rewrite A. f_equal. replace (t_col t + k - t_col t) with k by lia. reflexivity.
+Qed.
+
+End RowOps.
